@@ -653,6 +653,57 @@ func (e *env) main(inClose, closeReturned *bool) {
 			}
 		}
 	}
+	// fields the application filled itself before Run
+	{
+		w := model.NewWorld(p, EffectiveCfg(p))
+		for _, inst := range p.Instances {
+			t := p.TypeByName(inst.Type)
+			if t.Zero || !(inst.Preset || inst.Prefilled) {
+				continue
+			}
+			for _, pt := range t.Points {
+				if pt.GoField != "" {
+					continue
+				}
+				r := w.Resolve(inst, pt)
+				f := fieldAt(e.objs[inst.ID], t.Name, pt.Embed, pt.GoName())
+				if !f.IsValid() || !f.CanSet() {
+					continue
+				}
+				key := inst.ID + "." + pt.Field
+				if inst.Preset && pt.Single() && pt.Optional && r.Empty() && !r.SelfOnly {
+					// an object of a fitting type that is not a component
+					tn := pt.Target
+					if pt.Kind != sdl.KPtr {
+						tn = ""
+						for _, c := range p.Types {
+							if !c.Zero && !sdl.IsAlt(c.Name) && (pt.Kind == sdl.KAny || hasIfaceIdx(c, pt.Iface)) {
+								tn = c.Name
+								break
+							}
+						}
+					}
+					if tn == "" || sdl.IsAlt(tn) || p.TypeByName(tn) == nil || p.TypeByName(tn).Zero {
+						continue
+					}
+					h := &simrt.Handle{ID: "preset:" + key, Alias: "preset", C: ctx}
+					obj := reflect.ValueOf(e.newObject(tn, h))
+					if obj.Type().AssignableTo(f.Type()) {
+						f.Set(obj)
+						if obs.Presets == nil {
+							obs.Presets = map[string]string{}
+						}
+						obs.Presets[key] = "preset:" + key
+					}
+				}
+				if inst.Prefilled && !pt.Single() && len(r.Cands) != 0 && !t.Lazy && f.Kind() == reflect.Slice {
+					if tgt := e.objs[r.Cands[0]]; tgt != nil && reflect.TypeOf(tgt).AssignableTo(f.Type().Elem()) {
+						f.Set(reflect.Append(reflect.MakeSlice(f.Type(), 0, 1), reflect.ValueOf(tgt)))
+					}
+				}
+			}
+		}
+	}
 	// registration order
 	var perm []int
 	if spec.ForceOrd == simrt.OrdReversed {
@@ -954,4 +1005,13 @@ func firstLine(s string) string {
 		s = s[:300]
 	}
 	return s
+}
+
+func hasIfaceIdx(t *sdl.Type, k int) bool {
+	for _, x := range t.Ifaces {
+		if x == k {
+			return true
+		}
+	}
+	return false
 }
